@@ -377,6 +377,17 @@ func genEntryPointFragmentation(ctx *Ctx, r *prng.R, emit func(Case)) {
 	fams = append(fams, encFamilies(ctx, r, ctx.N(2, 8))...)
 	fams = append(fams, scFamilies(ctx, r, ctx.N(2, 8))...)
 	fams = append(fams, sigFamilies(ctx, r, ctx.N(2, 8))...)
+	// attached signatures over all-zero plaintexts: the payload chunk is the LAST field of the last packet, so the bytes a
+	// truncation cuts off are zeros — what a decoder that zero-fills a short read would silently restore
+	for major := 1; major <= 2; major++ {
+		signer := r.Bytes(32)
+		zf := &family{mode: "sig", major: major, named: true, sender: keys.Hex(sigPub(signer)),
+			openLine: func(msg []byte) string { return fmt.Sprintf("sig.verify known std %s", keys.Hex(msg)) }}
+		pt := make([]byte, 48)
+		line := fmt.Sprintf("sig.attachedwith %d 0 %s %s %d %s", major, keys.Hex(signer), keys.Hex(r.Bytes(16)), 64, keys.Hex(pt))
+		zf.msgs = append(zf.msgs, &genuineMsg{msg: mustOK(askGen(line), line), pt: pt})
+		fams = append(fams, zf)
+	}
 	for _, f := range fams {
 		muts := []mutation{}
 		for _, g := range f.msgs {
@@ -385,6 +396,18 @@ func genEntryPointFragmentation(ctx *Ctx, r *prng.R, emit func(Case)) {
 		all := allMutations(ctx, r, f, false)
 		for i := r.Intn(5); i < len(all); i += ctx.N(9, 3) {
 			muts = append(muts, all[i])
+		}
+		// every cut inside the LAST packet of the family's first message (a reader that refills its buffer differently
+		// near the end of input must not turn a truncation into a clean end for some fragmentations only)
+		if len(f.msgs) > 0 {
+			g := f.msgs[0].msg
+			_, _, packets, _ := splitMsg(g)
+			if n := len(packets); n > 0 {
+				lastLen := len(packets[n-1])
+				for cut := 1; cut <= lastLen && cut <= 80; cut += 1 + cut/24 {
+					muts = append(muts, mutation{fmt.Sprintf("b.cutlast%d", cut), g[:len(g)-cut]})
+				}
+			}
 		}
 		for _, m := range muts {
 			line := f.openLine(m.msg)
